@@ -244,7 +244,7 @@ pub fn stages(ctx: &Ctx) -> Vec<Stage> {
         let cfg = Cfg { t0: -1.0, t1: -1.0 + dt_max * 30.0, dt_min: dt_max * 1e-7, dt_max, tol };
         run_case(rep, solver, &prob, &cfg, DimMode::Dynamic, "anchors");
     }));
-    let n = ctx.tier.pick(12_000, 600_000);
+    let n = ctx.tier.pick(36_000, 600_000);
     st.push(Stage::new("random", n, move |i, rep| {
         let mut rng = Rng::for_case(seed, "c05-random", i);
         let solver = Solver::ADAPTIVE[(i % 6) as usize];
@@ -262,7 +262,7 @@ pub fn stages(ctx: &Ctx) -> Vec<Stage> {
     }));
     // BDF-tight stratum: where a wrong finite-difference Jacobian in the implicit solve becomes
     // observable at the API (SingularMatrix / MaximumIterationsExceeded)
-    let nb = ctx.tier.pick(400, 8_000);
+    let nb = ctx.tier.pick(1_200, 12_000);
     st.push(Stage::new("bdf-tight", nb, move |i, rep| {
         let mut rng = Rng::for_case(seed, "c05-bdf-tight", i);
         let solver = if i % 2 == 0 { Solver::BDF2 } else { Solver::BDF6 };
@@ -275,7 +275,7 @@ pub fn stages(ctx: &Ctx) -> Vec<Stage> {
         let cfg = Cfg { t0, t1: t0 + dt_max * rng.log10(1.0, 2.0), dt_min: dt_max * 1e-7, dt_max, tol };
         run_case(rep, solver, &prob, &cfg, DimMode::Dynamic, "bdf-tight");
     }));
-    let ns = ctx.tier.pick(600, 12_000);
+    let ns = ctx.tier.pick(1_200, 12_000);
     st.push(Stage::new("scaling", ns, move |i, rep| {
         let mut rng = Rng::for_case(seed, "c05-scaling", i);
         let solver = Solver::ADAPTIVE[(i % 6) as usize];
